@@ -111,7 +111,14 @@ ROUND8 = {
 }
 
 
+ROUND9 = {
+    "C15": " A check before `yield setup` that reads the leftover variable of an earlier loop concerns the last element of that loop, not the setup.",
+    "C17": " No in-place operation on an array or a basic-slice view of it that is read again under its other name (the singular vectors used by the propagation).",
+    "C19": " Re-ordering by position (`table.to_numpy()[table.index.get_indexer(names)]`) is read; the reverse call used as gather index is its inverse.",
+}
+
+
 def register(claim, na):
     for pid, (tech, text) in CLAIMS.items():
-        text = text + ROUND7.get(pid, "") + ROUND8.get(pid, "")
+        text = text + ROUND7.get(pid, "") + ROUND8.get(pid, "") + ROUND9.get(pid, "")
         claim(pid, tech, STRUCT + text, f"DESIGN.md 4 ({pid})")
